@@ -60,6 +60,17 @@ def build_pool(rng, tier):
                 vals += [rng.choice(vals)] + [0] * rng.randint(1, 2)
                 rng.shuffle(vals)
                 pool.append({"port": "partition", "args": part_unit(a, 2 if a == "cbldm" else rng.choice([2, 3]), vals, rng, fmt=fmt, out="pst")["params"]})
+        # the rest of the public surface inside histories: objective objects (among them the weighted one, whose value is a float division),
+        # lower bounds, and complete KK with ONE bin (its bound divides by numbins - 1 = 0 and relies on numpy's default error mode)
+        for _ in range(3):
+            nb = rng.randint(2, 4)
+            sm = [rng.randint(0, 50) for _ in range(nb)]
+            pool.append({"port": "weighted_value", "args": {"weights": [rng.randint(1, 4) for _ in range(nb)], "sums": sm, "sorted": 0, "kind": "list"}})
+            pool.append({"port": "objective_value", "args": {"o": rng.choice([0, 1, 2, 3, 4]), "ok": 2, "sums": sm, "sorted": 0, "kind": rng.choice(["list", "array"])}})
+            pool.append({"port": "lower_bound", "args": {"o": rng.choice([0, 1, 2]), "ok": 2, "sums": sorted(sm), "R": rng.randint(0, 30), "sorted": 1, "kind": "list"}})
+        for a in ["ckk", "ckk", "kk", "greedy"]:
+            vals = [rng.randint(1, 20) for _ in range(rng.randint(2, 5))]
+            pool.append({"port": "partition", "args": part_unit(a, 1, vals, rng, fmt="list", out="pst")["params"]})
         # failing calls
         for a in ["ff", "bfd", "bc"]:
             u = pack_unit(a, 10, [3, 11, 4, 10], rng, fmt=rng.choice(gen.FORMATS))
@@ -178,6 +189,9 @@ def judge_requests(u, impl, model):
     for step, (c, h) in enumerate(zip(u["params"]["calls"], impl["history"])):
         if h["args_changed"]:
             js.append(("py", None, f"call #{step} of the history ({c['args'].get('algo')} on {UN.short(c['args'].get('vals'), 100)}, format {c['args'].get('fmt')}) modified its input: {h['args_changed']}"))
+            break
+        if h.get("env_changed"):
+            js.append(("py", None, f"call #{step} of the history (port {c['port']}, {c['args'].get('algo') or c['args'].get('fn') or ''} {UN.short(c['args'], 160)}) changed process-wide state that later calls depend on: {UN.short(h['env_changed'], 300)}"))
             break
     return js
 
